@@ -67,6 +67,11 @@ def run_shard(desc, R, tier):
                         if K == 1 and sub[0] % 3 == 1:
                             eval_point({'kind': 'cx', 'NFFT': nf, 'bins': list(sub), 'amps': np.array(amps, dtype=complex), 'phases': list(ph),
                                         'P': P, 'N': 2 * P + 1, 'method': 'music', 'strided': True}, R)
+                        if (K == 1 and sub[0] % 3 == 2) or (K == 2 and sub[0] == 1 and sub[1] % 4 == 0):
+                            # single-precision complex record (IQ capture): same subspace structure at float32 resolution
+                            for meth in ('music', 'ev'):
+                                eval_point({'kind': 'cx', 'NFFT': nf, 'bins': list(sub), 'amps': np.array(amps, dtype=complex), 'phases': list(ph),
+                                            'P': P, 'N': 2 * P + 1, 'method': meth, 'single': True}, R)
     elif desc[0] == 'real':
         nf = desc[1]
         for k in range(2, nf // 2 - 1):
@@ -162,9 +167,13 @@ def eval_point(pt, R):
         # EV weights the noise vectors by 1/lambda_noise: on exactly singular data these are 1/0 or 1/(rounding noise), i.e. undefined.
         # EV is therefore run on the record plus the fixed 1e-6 perturbation (noise singular values ~1e-6, well defined).
         x = x + EV_EPS * A.eta(N, kind == 'cx')
-    FB = rar.fb_matrix(x, P)
+    single = bool(pt.get('single'))
+    if single:
+        x = x.astype(np.complex64 if np.iscomplexobj(x) else np.float32)
+    rt, neg = (1e-4, 1e-4) if single else (1e-9, 1e-8)       # float32 rounding (6e-8) limits how small the noise singular values of a single-precision record can be
+    FB = rar.fb_matrix(A.prom(x), P)
     sref = np.linalg.svd(FB, compute_uv=False)
-    feats = {'method': meth, 'K': K, 'nfft': 'odd' if nf % 2 else 'even', 'dtype': 'complex' if kind == 'cx' else 'real', 'NP': '>100' if N - P > 100 else '<=100'}
+    feats = {'method': meth, 'K': K, 'nfft': 'odd' if nf % 2 else 'even', 'dtype': ('complex' if kind == 'cx' else 'real') + ('-single' if pt.get('single') else ''), 'NP': '>100' if N - P > 100 else '<=100'}
     R.point(pt)
     R.calls()
     try:
@@ -180,10 +189,10 @@ def eval_point(pt, R):
         ok, why = peak_ok(two, true_bins, nf)
         R.check(ok, 'peaks' if kind == 'cx' else 'real_peaks', feats, pt, why, None,
                 'a true frequency (+-1 bin) does not dominate the bins away from all true frequencies')
-    R.check(S.shape == sref.shape and close(S, sref, 1e-9, 1e-12 * sref[0]), 'singular_values', feats, pt, S, sref,
+    R.check(S.shape == sref.shape and close(S, sref, rt, (1e-5 if single else 1e-12) * sref[0]), 'singular_values', feats, pt, S, sref,
             'returned singular values are not those of the forward-backward data matrix of order P', err=relerr(S, sref, 1e-12) if S.shape == sref.shape else None)
     if meth == 'music':      # exactly noiseless record: exactly K non-negligible singular values
-        R.check(np.all(np.diff(S) <= 1e-12 * S[0]) and int(np.sum(S > 1e-8 * S[0])) == K, 'rank', feats, pt, S, K,
+        R.check(np.all(np.diff(S) <= (1e-6 if single else 1e-12) * S[0]) and int(np.sum(S > neg * S[0])) == K, 'rank', feats, pt, S, K,
                 'singular values not in non-increasing order or not exactly K non-negligible ones')
     # class forms on the reported axis
     if kind == 'real' and N in (2 * P, 33):
@@ -212,7 +221,7 @@ def eval_point(pt, R):
             if ok2:
                 ok2, why = peak_ok(pp, true_bins, nf)
             R.check(ok2, 'class_peaks', feats, pt, pp, None, 'pmusic/pev: true frequencies do not dominate on the reported two-sided axis')
-            R.check(np.asarray(o.eigenvalues).shape == sref.shape and close(np.asarray(o.eigenvalues), sref, 1e-9, 1e-12 * sref[0]), 'singular_values', dict(feats, form='class'), pt,
+            R.check(np.asarray(o.eigenvalues).shape == sref.shape and close(np.asarray(o.eigenvalues), sref, rt, (1e-5 if single else 1e-12) * sref[0]), 'singular_values', dict(feats, form='class'), pt,
                     o.eigenvalues, sref, 'pmusic/pev.eigenvalues are not the singular values of the forward-backward data matrix')
         except Exception as e:
             R.viol('class_peaks', dict(feats, exc=type(e).__name__), pt, repr(e), None, 'class raised inside its domain')
